@@ -241,6 +241,7 @@ def verify_target(db, reg, key, timeout_ms=20000, want_smt2=False, findings=(), 
             for st in starts:
                 n_before = len(ex.vcs)
                 snapshot = st.fork()
+                st.entry = snapshot
                 st.yielded = None
                 if fi.is_generator:
                     rty = parse_type(c.get('returns', 'list[opaque]'))
